@@ -231,14 +231,16 @@ impl AssemblyContext {
     /// # Errors
     /// Returns an error if:
     /// - A procedure at the specified index could not be found.
-    /// - We are compiling a kernel and the procedure is not inlined.
+    /// - We are compiling a kernel and the procedure is not inlined, or the inlined procedure
+    ///   itself contains non-inlined calls.
     pub fn register_external_call(
         &mut self,
         proc: &Procedure,
         inlined: bool,
     ) -> Result<(), AssemblyError> {
-        // non-inlined calls (i.e., `call` instructions) cannot be executed in a kernel
-        if self.is_kernel && !inlined {
+        // non-inlined calls (i.e., `call` instructions) cannot be executed in a kernel; this also
+        // covers calls made by an already compiled procedure which gets inlined into the kernel
+        if self.is_kernel && (!inlined || !proc.callset().is_empty()) {
             let proc_name = &self.current_proc_context().expect("no procedure").name;
             return Err(AssemblyError::call_in_kernel(proc_name));
         }
